@@ -64,6 +64,24 @@ static void spectrum_cases(int d, const std::vector<double>& E, const std::vecto
       }
     }
   }
+  // (a') the scale placed a few parts in 1e9 above and below each pair's own phase (meaningful where the phases are not exactly
+  //      representable coincidences: the incommensurate spectra): only rounding-level ties are undecided
+  if (Emax > 0 && std::fabs(E[0] - (std::sqrt(2.0) - 1.7)) < 1e-12) for (double t : {0.37, -2.5, 7.3, 1e3}) {
+    std::vector<double> plain(2 * np); H.PrepareEvolve(plain.data(), t);
+    for (int q = 0; q < np; q++) for (double eps : {3e-9, -3e-9, 4e-8, -4e-8}) {
+      double scale = std::fabs(w[q] * t) * (1 + eps); if (!(scale > 0)) continue;
+      count("evaluations"); { uint64_t h = ref::fnv(&t, 8, hE); h = ref::fnv(&scale, 8, h); distinct(h ^ 17); }
+      std::vector<double> buf(2 * np, 7.0); std::vector<bool> avr(np, eps > 0);
+      H.PrepareEvolve(buf.data(), t, scale, avr);
+      for (int p = 0; p < np; p++) {
+        double phase = w[p] * t;
+        if (tie(phase, scale, 8 * ref::EPS * d * Emax * std::fabs(t))) { count("ties_skipped"); continue; }
+        bool want = std::fabs(phase) > std::fabs(scale);
+        bool ok = (avr[p] == want) && (want ? (buf[p] == 0 && buf[np + p] == 0) : (ref::close_ulp(buf[p], plain[p], 2) && ref::close_ulp(buf[np + p], plain[np + p], 2)));
+        if (!ok) { violation("PrepareEvolve(avg):wrong-pair-treatment:scale-next-to-a-phase" + ds, J().i("d", d).arr("spectrum", E).num("t", t).num("scale", scale).i("pair", p).i("j", pairs[p].j).i("k", pairs[p].k).num("phase", phase).i("flag", avr[p]).done()); break; }
+      }
+    }
+  }
   // (b) filters: read the multiplier of each pair from a buffer of ones
   auto expect_mult = [](double om, double c, double r) -> double {
     om = std::fabs(om); c = std::fabs(c); r = std::fabs(r);
